@@ -105,6 +105,10 @@ where
 {
     /// reserve a robin-hood table capable of holding at least `sz` elements
     pub fn new() -> BackedRobinhoodTable<'a, T> {
+        #[cfg(feature = "verif_hooks")]
+        if let Some(t) = Self::verif_new() {
+            return t;
+        }
         let v: Vec<HashTableElement<T>> = vec![HashTableElement::default(); DEFAULT_SIZE];
 
         BackedRobinhoodTable {
@@ -251,5 +255,39 @@ impl<'a, T: Eq + Hash + Clone> BackedRobinhoodTable<'a, T> {
 impl<'a, T: Hash + Eq + Clone> Default for BackedRobinhoodTable<'a, T> {
     fn default() -> Self {
         Self::new()
+    }
+}
+
+#[cfg(feature = "verif_hooks")]
+impl<'a, T: Clone> BackedRobinhoodTable<'a, T>
+where
+    T: Hash + PartialEq + Eq + Clone,
+{
+    /// a table with the capacity requested through `crate::verif::set_table_capacity`, if any
+    fn verif_new() -> Option<BackedRobinhoodTable<'a, T>> {
+        let cap = crate::verif::TABLE_CAPACITY.with(|c| c.get());
+        if cap == 0 {
+            return None;
+        }
+        Some(BackedRobinhoodTable {
+            tbl: vec![HashTableElement::default(); cap],
+            alloc: Bump::new(),
+            cap,
+            len: 0,
+            hits: 0,
+        })
+    }
+
+    /// `(occupied, hash, probe length, element)` of every slot, in slot order
+    pub fn verif_slots(&self) -> Vec<(bool, u64, u8, Option<&'a T>)> {
+        self.tbl
+            .iter()
+            .map(|e| (e.is_occupied(), e.hash, e.psl, e.ptr))
+            .collect()
+    }
+
+    /// `(capacity, number of elements, hits)`
+    pub fn verif_cap_len_hits(&self) -> (usize, usize, usize) {
+        (self.cap, self.len, self.hits)
     }
 }
